@@ -152,7 +152,10 @@ func apiServerChild() int {
 			n.DropRest(pat, 1)
 		}
 	}
-	ctrlIP := nodeIP(st.slot, 200)
+	ctrlIP := st.CtrlIP
+	if ctrlIP == "" {
+		ctrlIP = nodeIP(st.slot, 200)
+	}
 	if st.ctrlLn != nil {
 		// the bring-up registered through the stack's own REST listener: replace it by the recorded one
 		st.ctrlLn.Close()
